@@ -28,11 +28,15 @@ pub fn try_get_amount_delta_a(
     let (sqrt_price_lower, sqrt_price_upper) =
         order_prices(sqrt_price_1.into(), sqrt_price_2.into());
     let sqrt_price_diff = sqrt_price_upper - sqrt_price_lower;
-    let numerator: U256 = <U256>::from(liquidity)
+    let product: U256 = <U256>::from(liquidity)
         .checked_mul(sqrt_price_diff.into())
-        .ok_or(ARITHMETIC_OVERFLOW)?
-        .checked_shl(64)
         .ok_or(ARITHMETIC_OVERFLOW)?;
+    // `checked_shl` only rejects shift amounts >= 256, it does not detect bits shifted out.
+    // The program fails with MultiplicationOverflow when the shifted product exceeds 256 bits.
+    if product > (U256::MAX >> 64u32) {
+        return Err(ARITHMETIC_OVERFLOW);
+    }
+    let numerator: U256 = product.checked_shl(64).ok_or(ARITHMETIC_OVERFLOW)?;
 
     let denominator: U256 = <U256>::from(sqrt_price_lower)
         .checked_mul(sqrt_price_upper.into())
@@ -109,11 +113,14 @@ pub fn try_get_next_sqrt_price_from_a(
     let p = <U256>::from(current_sqrt_price)
         .checked_mul(amount.into())
         .ok_or(ARITHMETIC_OVERFLOW)?;
-    let numerator = <U256>::from(current_liquidity)
+    let product = <U256>::from(current_liquidity)
         .checked_mul(current_sqrt_price.into())
-        .ok_or(ARITHMETIC_OVERFLOW)?
-        .checked_shl(64)
         .ok_or(ARITHMETIC_OVERFLOW)?;
+    // `checked_shl` does not detect bits shifted out (see try_get_amount_delta_a)
+    if product > (U256::MAX >> 64u32) {
+        return Err(ARITHMETIC_OVERFLOW);
+    }
+    let numerator = product.checked_shl(64).ok_or(ARITHMETIC_OVERFLOW)?;
 
     let current_liquidity_shifted = <U256>::from(current_liquidity)
         .checked_shl(64)
